@@ -156,4 +156,15 @@ PROPS = {
         ],
         "assumptions": ["SpWF: a registered service provider has metadata with an SPSSODescriptor (NewServiceProvider refuses others); storage returns non-nil objects with nil errors"],
     },
+    "C07": {
+        "modules": ["SamlModel.Props.C07"],
+        "translated": ["signatureRedirectVerificationNecessary", "signaturePostVerificationNecessary", "verifyRedirectSignature", "verifyPostSignature",
+                       "certificateCheckNecessary", "checkCertificate", "checkRequestRequiredContent", "checkIfRequestTimeIsStillValid",
+                       "verifyRequestDestinationOfAuthRequest", "verifyRequestDestinationOfAttrQuery", "GetAcsUrlAndBindingForResponse"],
+        "trusted_base": COMMON_TRUST + SSO_TRUST + [
+            "'any legal XML serialisation' is outside the model: encoding/xml's decoder is an oracle; covered by serialising every conformant shape in several styles (prefixes incl. default namespace, XML declaration, indentation, fractional-second digits) and requiring acceptance",
+            "signature validation oracles answer as the real library does on what the simulated SP signed",
+        ],
+        "assumptions": [],
+    },
 }
